@@ -386,4 +386,243 @@ theorem encodeBodyG_spec (R : Sched) (o : Opts) (c : Ctx) (e : Enc) (h : Hdr) (d
     subst hc
     simp [h1]
 
+theorem encodeDirectG_spec (R : Sched) (o : Opts) (c : Ctx) (e : Enc) (h : Hdr) (ds0 : Nat) (ms : List WMsg) (hn : HdrNorm h)
+    (hs : e.Safe) : ∃ r, encodeDirectG R o c e h ds0 ms = .ret r ∧ r.1.Safe ∧
+      (c = none → r = ((encodeDirectR R o e h ds0 ms).1, none, if (encodeDirectR R o e h ds0 ms).2 then .ok else .err)) := by
+  obtain ⟨r, r1, r2, r3⟩ := encodeBodyG_spec R o c e h ds0 ms hn hs
+  unfold encodeDirectG encodeDirectR
+  rw [r1]
+  simp only [Run.bind]
+  by_cases h2 : r.2.2 = .ok
+  · simp only [h2, bne_self_eq_false, Bool.false_eq_true, if_false]
+    obtain ⟨a, b⟩ := updateFileHeaderG_spec R r.1 h ds0 hn r2
+    rw [a]
+    refine ⟨_, rfl, b, fun hc => ?_⟩
+    have := r3 hc
+    subst hc
+    rw [this] at h2 ⊢
+    simp only at h2 ⊢
+    by_cases h4 : (encodeBodyR R o e h ds0 ms).2 = true
+    · simp [h4]
+    · simp [h4] at h2
+  · have hne : (r.2.2 != Res.ok) = true := by simp [h2]
+    simp only [hne, if_true]
+    refine ⟨r, rfl, r2, fun hc => ?_⟩
+    have := r3 hc
+    subst hc
+    rw [this] at h2 ⊢
+    by_cases h4 : (encodeBodyR R o e h ds0 ms).2 = true
+    · simp [h4] at h2
+    · simp [h4]
+
+theorem encodeEarlyG_spec (R : Sched) (o : Opts) (c : Ctx) (e : Enc) (h : Hdr) (ms : List WMsg) (hn : HdrNorm h)
+    (ho : 0 < o.lruCap) (hs : e.Safe) : ∃ r, encodeEarlyG R o c e h ms = .ret r ∧ r.1.Safe ∧
+      (c = none → r = ((encodeEarlyR R o e h ms).1, none, (if (encodeEarlyR R o e h ms).2 then .ok else .err), false)) := by
+  obtain ⟨d, d1, d2⟩ := dryPassG_spec o ms c e.es e.dataSize hs.lru
+  unfold encodeEarlyG encodeEarlyR
+  rw [d1]
+  simp only [Run.bind]
+  obtain ⟨c', dr⟩ := d
+  cases dr with
+  | none =>
+    refine ⟨_, rfl, hs, fun hc => ?_⟩
+    have := d2 hc
+    cases this
+  | some dry =>
+    simp only
+    obtain ⟨r, r1, r2, r3⟩ := encodeBodyG_spec R o c' (e.reset o) h dry.1 dry.2 hn (hs.reset o ho)
+    rw [r1]
+    refine ⟨_, rfl, r2, fun hc => ?_⟩
+    have hd := d2 hc
+    injection hd with hc' hdry
+    injection hdry with hdry
+    subst hc' hdry
+    rw [r3 rfl]
+
+theorem encodeG_spec (nilw : Bool) (R : Sched) (o : Opts) (c : Ctx) (x : EncC) (f : FitIn) (hn : HdrNorm f.hdr)
+    (ho : 0 < o.lruCap) (hs : x.e.Safe) : ∃ r, encodeG nilw R o c x f = .ret r ∧ r.1.e.Safe ∧
+      (nilw = false → c = none → x.discard = false →
+        r = (⟨(encodeR R o x.e f).1, false⟩, if (encodeR R o x.e f).2 then .ok else .err)) := by
+  unfold encodeG
+  cases nilw with
+  | true => exact ⟨_, rfl, hs.reset o ho, fun h => by cases h⟩
+  | false =>
+    simp only [Bool.false_eq_true, if_false]
+    by_cases hd : x.discard = true
+    · simp only [hd, if_true]
+      obtain ⟨d, d1, _⟩ := dryPassG_spec o f.msgs none x.e.es x.e.dataSize hs.lru
+      obtain ⟨d', d1', _⟩ := dryPassG_spec o f.msgs none (freshEnc o) 0 (LruOK.empty _ ho)
+      rw [d1]
+      simp only [Run.bind, guarded, hdrSliceOK_of hn, if_true]
+      rw [d1']
+      exact ⟨_, rfl, hs.reset o ho, fun _ _ h => by first | cases h | (rw [hd] at h; cases h)⟩
+    · simp only [hd, Bool.false_eq_true, if_false]
+      by_cases hk : x.e.w.kind.direct = true
+      · simp only [hk, if_true]
+        obtain ⟨r, r1, r2, r3⟩ := encodeDirectG_spec R o c x.e f.hdr f.ds0 f.msgs hn hs
+        rw [r1]
+        simp only [Run.bind]
+        by_cases h2 : r.2.2 = .ok
+        · simp only [h2, bne_self_eq_false, Bool.false_eq_true, if_false]
+          have hs' := r2.reset o ho
+          rw [flushG_ret R _ hs'.buf]
+          obtain ⟨a, _, _⟩ := flushR_buf R (r.1.reset o).w hs'.buf
+          refine ⟨_, rfl, ⟨a, hs'.lru, hs'.off⟩, fun _ hc _ => ?_⟩
+          have := r3 hc
+          subst hc
+          rw [this] at h2 ⊢
+          simp only at h2 ⊢
+          unfold encodeR
+          by_cases h4 : (encodeDirectR R o x.e f.hdr f.ds0 f.msgs).2 = true
+          · simp [hk, h4]
+          · simp [h4] at h2
+        · have hne : (r.2.2 != Res.ok) = true := by simp [h2]
+          simp only [hne, if_true]
+          refine ⟨_, rfl, r2.reset o ho, fun _ hc _ => ?_⟩
+          have := r3 hc
+          subst hc
+          rw [this] at h2 ⊢
+          unfold encodeR
+          by_cases h4 : (encodeDirectR R o x.e f.hdr f.ds0 f.msgs).2 = true
+          · simp [h4] at h2
+          · simp [hk, h4]
+      · simp only [hk, Bool.false_eq_true, if_false]
+        obtain ⟨r, r1, r2, r3⟩ := encodeEarlyG_spec R o c x.e f.hdr f.msgs hn ho hs
+        rw [r1]
+        simp only [Run.bind]
+        by_cases h2 : r.2.2.1 = .ok
+        · simp only [h2, bne_self_eq_false, Bool.false_eq_true, if_false]
+          have hs' := r2.reset o ho
+          rw [flushG_ret R _ hs'.buf]
+          obtain ⟨a, _, _⟩ := flushR_buf R (r.1.reset o).w hs'.buf
+          refine ⟨_, rfl, ⟨a, hs'.lru, hs'.off⟩, fun _ hc _ => ?_⟩
+          have := r3 hc
+          subst hc
+          rw [this] at h2 ⊢
+          simp only at h2 ⊢
+          unfold encodeR
+          by_cases h4 : (encodeEarlyR R o x.e f.hdr f.msgs).2 = true
+          · simp [hk, h4]
+          · simp [h4] at h2
+        · have hne : (r.2.2.1 != Res.ok) = true := by simp [h2]
+          simp only [hne, if_true]
+          refine ⟨_, rfl, r2.reset o ho, fun _ hc _ => ?_⟩
+          have := r3 hc
+          subst hc
+          rw [this] at h2 ⊢
+          unfold encodeR
+          by_cases h4 : (encodeEarlyR R o x.e f.hdr f.msgs).2 = true
+          · simp [h4] at h2
+          · simp [hk, h4]
+
+theorem encodeVG_spec {σ : Type} (V : MsgValidator σ) (nilw : Bool) (R : Sched) (o : Opts) (c : Ctx) (x : EncC) (f : FitIn)
+    (hn : HdrNorm f.hdr) (ho : 0 < o.lruCap) (hs : x.e.Safe) : ∃ r, encodeVG V nilw R o c x f = .ret r ∧ r.1.e.Safe ∧
+      (nilw = false → c = none → x.discard = false → r = (⟨(encodeVR V R o x.e f).1, false⟩, (encodeVR V R o x.e f).2)) := by
+  unfold encodeVG encodeVR
+  split
+  · exact ⟨_, rfl, hs, fun _ _ hd => by cases x; simp_all⟩
+  · split
+    · exact ⟨_, rfl, hs, fun _ _ hd => by cases x; simp_all⟩
+    · cases hv : validateAll V V.init f.msgs with
+      | none => exact ⟨_, rfl, hs, fun _ _ hd => by cases x; simp_all⟩
+      | some ms' =>
+        simp only
+        obtain ⟨r, r1, r2, r3⟩ := encodeG_spec nilw R o c x { f with msgs := ms' } hn ho hs
+        exact ⟨r, r1, r2, r3⟩
+
+/-! ### stream encoder -/
+
+theorem ensureHeaderG_spec (R : Sched) (h : Hdr) (s : Stream) (hn : HdrNorm h) (hs : s.e.Safe) :
+    s.ensureHeaderG R h = .ret (s.ensureHeaderR R h) ∧ (s.ensureHeaderR R h).1.e.Safe := by
+  unfold Stream.ensureHeaderG Stream.ensureHeaderR
+  split
+  · exact ⟨rfl, hs⟩
+  · obtain ⟨a, b⟩ := encodeFileHeaderG_spec R s.e h s.hdrDs hn hs
+    rw [a]
+    exact ⟨rfl, b⟩
+
+theorem writeMessageVG_spec {σ : Type} (V : MsgValidator σ) (R : Sched) (o : Opts) (h : Hdr) (s : Stream) (vs : σ) (m : WMsg)
+    (hn : HdrNorm h) (hs : s.e.Safe) :
+    s.writeMessageVG V R o h vs m = .ret (s.writeMessageVR V R o h vs m) ∧ (s.writeMessageVR V R o h vs m).1.e.Safe := by
+  obtain ⟨a, b⟩ := ensureHeaderG_spec R h s hn hs
+  unfold Stream.writeMessageVG Stream.writeMessageVR
+  rw [a]
+  simp only [Run.bind]
+  split
+  · exact ⟨rfl, b⟩
+  · split
+    · exact ⟨rfl, b⟩
+    · cases hv : V.step vs m with
+      | mk vs' om =>
+        cases om with
+        | none => exact ⟨rfl, b⟩
+        | some m' =>
+          simp only
+          obtain ⟨a2, b2⟩ := encodeMessageG_spec R o (s.ensureHeaderR R h).1.e m' b
+          rw [a2]
+          exact ⟨rfl, b2⟩
+
+theorem sequenceCompletedVG_spec {σ : Type} (V : MsgValidator σ) (R : Sched) (c : StreamCfg) (o : Opts) (h : Hdr) (s : Stream) (vs : σ)
+    (hn : HdrNorm h) (ho : 0 < o.lruCap) (hs : s.e.Safe) :
+    s.sequenceCompletedVG V R c o h vs = .ret (s.sequenceCompletedVR V R c o h vs) ∧
+      (s.sequenceCompletedVR V R c o h vs).1.e.Safe := by
+  obtain ⟨a1, b1⟩ := encodeCRCG_spec R s.e hs
+  unfold Stream.sequenceCompletedVG Stream.sequenceCompletedVR Stream.sequenceCompletedR
+  rw [a1]
+  simp only [Run.bind]
+  by_cases h1 : (encodeCRCR R s.e).2 = true
+  · simp only [h1, Bool.not_true, Bool.false_eq_true, if_false]
+    obtain ⟨a2, b2⟩ := updateFileHeaderG_spec R (encodeCRCR R s.e).1 h s.hdrDs hn b1
+    rw [a2]
+    simp only
+    by_cases h2 : (updateFileHeaderR R (encodeCRCR R s.e).1 h s.hdrDs).2.2 = true
+    · simp only [h2, Bool.not_true, Bool.false_eq_true, if_false]
+      have hs' := b2.reset o ho
+      rw [flushG_ret R _ hs'.buf]
+      obtain ⟨a, _, _⟩ := flushR_buf R ((updateFileHeaderR R (encodeCRCR R s.e).1 h s.hdrDs).1.reset o).w hs'.buf
+      first | exact ⟨rfl, ⟨a, hs'.lru, hs'.off⟩⟩ | exact ⟨trivial, ⟨a, hs'.lru, hs'.off⟩⟩
+    · simp only [h2, Bool.not_false, if_true]
+      first | exact ⟨rfl, b2⟩ | exact ⟨trivial, b2⟩
+  · simp only [h1, Bool.not_false, if_true]
+    first | exact ⟨rfl, b1⟩ | exact ⟨trivial, b1⟩
+
+/-! ### runs -/
+
+theorem runEncCalls_spec {σ : Type} (V : MsgValidator σ) (nilw : Bool) (R : Sched) (o : Opts) (ho : 0 < o.lruCap) :
+    ∀ (cs : List EncCall) (x : EncC), (∀ c ∈ cs, HdrNorm c.fit.hdr) → x.e.Safe →
+      ∃ r, runEncCalls V nilw R o x cs = .ret r ∧ r.1.e.Safe ∧ r.2.length = cs.length
+  | [], x, _, hs => ⟨_, rfl, hs, rfl⟩
+  | c :: cs, x, hn, hs => by
+    obtain ⟨r, r1, r2, _⟩ := encodeVG_spec V nilw R o c.ctx x c.fit (hn c (by simp)) ho hs
+    obtain ⟨t, t1, t2, t3⟩ := runEncCalls_spec V nilw R o ho cs r.1 (fun c' hc' => hn c' (by simp [hc'])) r2
+    unfold runEncCalls
+    rw [r1]
+    simp only [Run.bind]
+    rw [t1]
+    exact ⟨_, rfl, t2, by simp [t3]⟩
+
+theorem runStreamCalls_spec {σ : Type} (V : MsgValidator σ) (R : Sched) (sc : StreamCfg) (o : Opts) (h : Hdr) (hn : HdrNorm h)
+    (ho : 0 < o.lruCap) : ∀ (cs : List StreamCall) (s : Stream) (vs : σ), s.e.Safe →
+      ∃ r, runStreamCalls V R sc o h s vs cs = .ret r ∧ r.1.e.Safe ∧ r.2.2.length = cs.length
+  | [], s, vs, hs => ⟨_, rfl, hs, rfl⟩
+  | c :: cs, s, vs, hs => by
+    unfold runStreamCalls
+    cases c with
+    | writeMessage m =>
+      obtain ⟨a, b⟩ := writeMessageVG_spec V R o h s vs m hn hs
+      simp only
+      rw [a]
+      simp only [Run.bind]
+      obtain ⟨t, t1, t2, t3⟩ := runStreamCalls_spec V R sc o h hn ho cs _ (s.writeMessageVR V R o h vs m).2.1 b
+      rw [t1]
+      exact ⟨_, rfl, t2, by simp [t3]⟩
+    | sequenceCompleted =>
+      obtain ⟨a, b⟩ := sequenceCompletedVG_spec V R sc o h s vs hn ho hs
+      simp only
+      rw [a]
+      simp only [Run.bind]
+      obtain ⟨t, t1, t2, t3⟩ := runStreamCalls_spec V R sc o h hn ho cs _ (s.sequenceCompletedVR V R sc o h vs).2.1 b
+      rw [t1]
+      exact ⟨_, rfl, t2, by simp [t3]⟩
+
 end Fit.Writer
